@@ -66,6 +66,9 @@ func c11execFn(c *Ctx, keyhex, sip, asker, via string, dists []uint, ins []c11in
 		var ns []*enode.Node
 		var lv []bool
 		for _, x := range ins {
+			if x.reval {
+				continue
+			}
 			if n, err := hNodeFromBytes(x.enr); err == nil {
 				ns = append(ns, n)
 				lv = append(lv, x.live)
@@ -322,7 +325,7 @@ func (g *c11gen) fill(self enode.ID) []c11ins {
 	add := func(d int, ipkind string, size int, live bool) {
 		n := g.genNode(self, d, ipkind, size)
 		if n != nil {
-			ins = append(ins, c11ins{hEnrBytes(n), live})
+			ins = append(ins, c11ins{hEnrBytes(n), live, false})
 		}
 	}
 	plan := r.Intn(10)
@@ -461,12 +464,33 @@ func (g *c11gen) fnCase() {
 				port = port + 1 + r.Intn(100)
 			}
 			if nn := hRecord(nil, old.ID(), ip, port, old.Seq()+1, 0); nn != nil {
-				ins = append(ins, c11ins{hEnrBytes(nn), false}) // an update never carries a liveness check of its own
+				ins = append(ins, c11ins{hEnrBytes(nn), false, false}) // an update never carries a liveness check of its own
 				g.c.Count("fn_entry_record_updated_endpoint_changed")
 			}
 		}
 	}
 	ds := g.dists()
+	// liveness history of one entry: it earns checks, its record is replaced by one with another port, and the re-check of the
+	// new endpoint fails (it must not be offered) or succeeds (it may be offered again); then its bucket is asked for
+	revalHistory := false
+	if len(ins) > 0 && r.Intn(6) == 0 {
+		x := ins[r.Intn(len(ins))]
+		if old, err := hNodeFromBytes(x.enr); err == nil && x.live && !x.reval && old.Record().IdentityScheme() == "null" {
+			for k, cnt := 0, 2+r.Intn(3); k < cnt; k++ {
+				ins = append(ins, c11ins{x.enr, true, true})
+			}
+			if nn := hRecord(nil, old.ID(), old.IP(), old.UDP()+1+r.Intn(50), old.Seq()+5, 0); nn != nil {
+				ins = append(ins, c11ins{hEnrBytes(nn), false, false})
+				ins = append(ins, c11ins{hEnrBytes(nn), r.Intn(3) == 0, true})
+				ds = append([]uint{uint(enode.LogDist(inst.Self().ID(), old.ID()))}, ds...)
+				if len(ds) > 256 {
+					ds = ds[:256]
+				}
+				revalHistory = true
+				g.c.Count("fn_liveness_history_checks_update_recheck")
+			}
+		}
+	}
 	via := "h"
 	if len(ds) <= 256 && r.Intn(3) == 0 {
 		via = "t"
@@ -480,7 +504,25 @@ func (g *c11gen) fnCase() {
 		}
 	}
 	asker := g.asker()
-	if r.Intn(4) == 0 {
+	// a request that reaches the 32-record cap, followed on the same instance by requests naming the same distances
+	if !revalHistory && r.Intn(10) == 0 {
+		var full []c11ins
+		self := inst.Self().ID()
+		d1, d2 := 256, 255-r.Intn(3)
+		for _, d := range []int{d1, d2} {
+			for i := 0; i < 16; i++ {
+				if n := g.genNode(self, d, r.Pick2([]string{"loop", "lan10", "lan192"}), 0); n != nil {
+					full = append(full, c11ins{hEnrBytes(n), true, false})
+				}
+			}
+		}
+		lo := "127.0.0.1:30303"
+		c11execFn(g.c, g.keys[ki], g.sips[ki], lo, "h", []uint{0, uint(d1), uint(d2)}, full)
+		c11execFn(g.c, g.keys[ki], g.sips[ki], lo, "h", []uint{0}, full)
+		c11execFn(g.c, g.keys[ki], g.sips[ki], lo, "h", []uint{uint(d1)}, full)
+		g.c.Count("fn_cap_reached_then_follow_up")
+	}
+	if !revalHistory && r.Intn(4) == 0 {
 		// the same request while the table is still seeding and, on the same table, after seeding has finished
 		c11execFn(g.c, g.keys[ki], g.sips[ki], asker, "s", ds, ins)
 		via = "h"
@@ -687,7 +729,7 @@ func c11live(c *Ctx, r *Rng, rounds int) {
 		for _, k := range pool {
 			port := r.Pick([]int{30303, 30303, 30303, 1024, 80})
 			n := hRecord(k.key, k.id, hIP(r, r.Pick2([]string{"loop", "lan10", "pub"})), port, 1, size)
-			ins = append(ins, c11ins{hEnrBytes(n), r.Intn(10) != 0})
+			ins = append(ins, c11ins{hEnrBytes(n), r.Intn(10) != 0, false})
 		}
 		hFill(b, ins)
 		for _, ds := range [][]uint{{256}, {0}, {255, 256, 254}, {0, 256, 250}, {253, 253, 999, 252}, {}, {254}, {255}} {
